@@ -475,6 +475,9 @@ def r15_shared_value(c, facts, rule='C02.R15'):
             return False
         for kind, bi, x in defs:
             if kind in ('call', 'callfield'):
+                if P.name_is((callee_of(x) or {}).get('def', ''), 'from_residual'):
+                    # the error value of an inlined helper's `?`: it never reaches the payload of an Ok
+                    continue
                 if not any('l' in a and must(a['l'], seen + (l,)) for a in x['args']):
                     return False
             elif kind in ('assign', 'field'):
